@@ -652,12 +652,22 @@ def r3_bounds(ctx, ents, cl, krate_prefix="cascette_", discharged=DISCHARGED_R3)
                     ctx.ok(rule, [bid, sk.kind, "proven", sk.bb, len(sk.goals)], "in bounds", sk.loc, nontrivial=True)
                 continue
             strict = sorted(t for t in sk.taint if strict_input(t, br))
+            if not strict and "param" in sk.taint:
+                # a private helper's integer parameter: input-derived when an in-closure caller passes an input-derived value for it
+                for g in sk.goals:
+                    for at_ in (g.atoms() if g is not None else ()):
+                        if at_[0] == "arg":
+                            strict += sorted("%s (passed by a caller for `%s`)" % (t, a.b.local_name(at_[1])) for t in getattr(a, "param_in", {}).get(at_[1], ()) if strict_input(t, br))
+                strict = sorted(set(strict))
             if not strict:
                 cnt["not decided"] += 1
                 nd[bid] += 1
                 continue
             ctx.saw(a.b)
-            tag = strict[0] if strict[0] == "input" else "field " + strict[0][6:].split("::")[-1]
+            t0 = strict[0].split(" (passed")[0]
+            tag = t0 if t0 == "input" else "field " + t0[6:].split("::")[-1]
+            if " (passed" in strict[0]:
+                tag = "param <- " + tag
             if sk.kind == "precondition":
                 keyl = [bid, "precondition", sk.what.split(":")[0].replace("precondition of ", ""), sk.what.split(": ", 1)[-1].replace(" <= 0", "")]
             else:
